@@ -128,6 +128,39 @@ def run(ck):
             if dev > tol:
                 ck.violation(f'predictions change by {dev:.3g} when all inputs are rescaled by {c} (bandwidth {got!r} -> {float(mc.kernel_obj.bandwidth)!r}) on {desc}',
                              dict(desc, c=c, dev=dev), key=json.dumps(dict(site='scale-invariance', iters0=(iters == 0))))
+    # ---- float32 inputs of small magnitude (features of order 1e-5, rescaled by 1e-3..1): the median pairwise distance is far below the resolution of float32 AROUND 1
+    #      but is an ordinary float32 number; the stored bandwidth must still be base x median and predictions must not change under rescaling
+    T32 = lambda a: torch.tensor(a, dtype=torch.float32)
+    for i in range(ck.n(4, 12)):
+        kern, extra = kernels[i % 4]
+        n = 14; d = 3; base = [1.0, 10.0][i % 2]
+        X = (rng.standard_normal((n, d)) * 1e-5); Y = rng.standard_normal((n, 1)); Xv = rng.standard_normal((6, d)) * 1e-5; Yv = rng.standard_normal((6, 1)); Q = rng.standard_normal((5, d)) * 1e-5
+        desc = dict(kind='tiny-float32', i=i, kernel=kern, base=base, seed=ck.seed)
+        outs = {}
+        for c in (1.0, 1e-3):
+            xr.seed_all(1950 + i + ck.seed)
+            m = xr.RealRFM(kernel=kern, iters=1, bandwidth=base, exponent=1.0, bandwidth_mode='adaptive', device='cpu', diag=False, verbose=False, tuning_metric='mse', **extra)
+            try:
+                with xr.quiet():
+                    m.fit((T32(X * c), T32(Y)), (T32(Xv * c), T32(Yv)), iters=1, reg=1e-2, verbose=False, return_best_params=False)
+                    P = m.predict(T32(Q * c)).double().numpy()
+            except Exception as e:
+                ck.violation(f'adaptive fit on small-magnitude float32 inputs (scale {c}) raised {e!r} on {desc}', dict(desc, c=c), key='fit-raise'); break
+            D = kernel_distance_matrix(m, m.centers)
+            off = D[~torch.eye(n, dtype=torch.bool)]
+            srt = torch.sort(off).values
+            med = float(srt[(len(srt) - 1) // 2])
+            got = float(m.kernel_obj.bandwidth)
+            ck.case(dict(desc, c=c, bandwidth=got, expected=base * med), nontrivial=True); ck.count('small-magnitude float32 inputs')
+            if abs(got - base * med) > 2e-3 * base * med:
+                ck.violation(f'stored bandwidth {got!r} != base bandwidth {base} x lower median {med!r} of the pairwise distances (= {base * med!r}) for float32 inputs of magnitude {1e-5 * c:g} on {desc}',
+                             dict(desc, c=c, got=got, want=base * med), key=json.dumps(dict(site='bandwidth', iters0=False)))
+            outs[c] = P
+        if len(outs) == 2:
+            dev = float(np.max(np.abs(outs[1.0] - outs[1e-3])))
+            if dev > 5e-3 * (1 + float(np.abs(outs[1.0]).max())):
+                ck.violation(f'predictions change by {dev:.3g} when small-magnitude float32 inputs are rescaled by 1e-3 on {desc}', dict(desc, dev=dev),
+                             key=json.dumps(dict(site='scale-invariance', iters0=False)))
     res = ck.run_bool_cases('median', HEADER, cases, shard=40)
     bad = [meta[k] for k, v in res.items() if v is not True]
     ck.obligation(f'correspondence: stored bandwidth / base is a lower median of the recomputed distances for {len(cases)} fits (Coq lower_median_okb)',
